@@ -358,8 +358,23 @@ class CallMixin:
         return None
 
 
+def _immutable_default(d):
+    if isinstance(d, (ast.Constant, ast.Name, ast.Attribute)):
+        return True
+    if isinstance(d, ast.Tuple):
+        return all(_immutable_default(x) for x in d.elts)
+    if isinstance(d, ast.UnaryOp):
+        return _immutable_default(d.operand)
+    return False
+
+
 def Frame_for_defaults(interp, fi, fr):
     from .interp import Frame
+    # defaults are evaluated here at call time, CPython evaluates them once at definition time: the same thing for immutable defaults only
+    a = fi.node.args
+    for d in list(a.defaults) + [x for x in a.kw_defaults if x is not None]:
+        if not _immutable_default(d):
+            raise Undecided(f'mutable / computed default argument `{ast.unparse(d)}` of {fi.qualname} (evaluated once at definition time in CPython)')
     f = Frame(fi, parent=None, module=fi.module)
     return f
 
